@@ -31,6 +31,9 @@ def fn_table(unit_text):
         m = IMPL_RE.match(line)
         if m:
             owner = m.group(1).split(" for ")[-1].strip()
+            # `impl<'a, V: Key> LeafKeyIter<'a, V>` -> LeafKeyIter (Verus names functions by the bare type)
+            owner = re.sub(r"^<[^>]*>\s*", "", owner)
+            owner = re.sub(r"\s*<.*$", "", owner).strip()
         elif line.startswith("}"):
             owner = ""
         m = FN_RE.match(line)
@@ -105,6 +108,7 @@ def run_unit(repo, overlay_path, scratch, threads=8, rlimit=None, extra_args=(),
     diags = parse_diagnostics(p.stderr, unit_file)
     unit_text = open(unit_file).read()
     table = fn_table(unit_text)
+    res["fn_names"] = sorted(set(t for t in table if t))
     vr = (js or {}).get("verification-results")
     front_end_failed = (not js or not vr or vr.get("encountered-vir-error") or "verified" not in vr
                         or "times-ms" not in js
